@@ -21,8 +21,11 @@ F23 = "F23-table-lock-dropped-by-parser"
 # sqlparser 0.52 parse_as_table swallows the two tokens after `TABLE name`: the locking clause is lost
 F23_RE = re.compile(r"\bTABLE\s+[A-Za-z_\"][A-Za-z_0-9\"]*\s+FOR\s+(UPDATE|SHARE)\b", re.I)
 
-# (parser, splitting, primary_reads, default_role)
-CFGS = [(p, s, r, d) for p in (True, False) for s in (True, False) for r in (False, True) for d in (None, "primary", "replica")]
+# (parser, splitting, primary_reads, default_role, plugins): a [plugins] section only matters on a pool whose parser is on
+CFGS = [(p, s, r, d, False) for p in (True, False) for s in (True, False) for r in (False, True) for d in (None, "primary", "replica")] + \
+       [(True, s, r, d, True) for s in (True, False) for r in (False, True) for d in (None, "primary", "replica")]
+PLUGINS_JSON = {"table_access": {"enabled": True, "tables": ["unrelated_secret"]}, "intercept": None, "query_logger": None, "prewarmer": None}
+PLUGINS_TOML = '[plugins]\n[plugins.table_access]\nenabled = true\ntables = ["unrelated_secret"]\n'
 ROLE_CODE = {None: 0, "primary": 1, "replica": 2, "mirror": 3}
 
 ROLE_CMDS = {"primary": "RPrimary", "replica": "RReplica", "any": "RAny", "auto": "RAuto", "default": "RDefault"}
@@ -31,6 +34,8 @@ PR_CMDS = {"on": "POn", "off": "POff", "default": "PDefault"}
 
 def settings_json(c, auto_key=False):
     s = {"parser": c[0], "splitting": c[1], "primary_reads": c[2], "default_role": c[3], "shards": 1}
+    if len(c) > 4 and c[4]:
+        s["plugins"] = PLUGINS_JSON
     if auto_key:
         s.update({"shards": 3, "auto_key": "data.id"})
     return s
@@ -39,7 +44,7 @@ def settings_json(c, auto_key=False):
 def coq_cfg(c):
     d = {None: "None", "primary": "(Some Primary)", "replica": "(Some Replica)"}[c[3]]
     b = lambda x: "true" if x else "false"
-    return "(mk %s %s %s %s)" % (b(c[0]), b(c[1]), b(c[2]), d)
+    return "(mk %s %s %s %s %s)" % (b(c[0]), b(c[1]), b(c[2]), d, b(len(c) > 4 and c[4]))
 
 
 PREAMBLE = """From Coq Require Import List Bool Arith NArith.
@@ -49,7 +54,7 @@ Definition rc (r : option role) : N := match r with None => 0 | Some Primary => 
 Definition obs (cfg : settings) (st : rstate) : N := (rc (active_role st) * 4 + (if parser_on cfg st then 2 else 0) + (if preads_on cfg st then 1 else 0))%%N.
 (* one number per configuration: the per-step observations as base-16 digits, most significant = first step, leading 1 *)
 Definition pack (l : list N) : N := fold_left (fun acc d => acc * 16 + d)%%N l 1%%N.
-Definition mk p s r d := {| s_parser := p; s_splitting := s; s_primary_reads := r; s_default_role := d |}.
+Definition mk p s r d g := {| s_parser := p; s_splitting := s; s_primary_reads := r; s_default_role := d; s_plugins := g |}.
 Definition cfgs := [%s].
 Definition run (its : list item) := map (fun cfg => pack (map (obs cfg) (session_trace cfg (init_state cfg) its))) cfgs.
 Definition shc (o : option nat) : N := match o with None => 0%%N | Some n => N.of_nat (S n) end.
@@ -119,7 +124,7 @@ def step_cmd_pr(v):
 
 
 def step_route(proto, mi):
-    return {"op": "route", "proto": proto, "_k": ("msg", mi)}
+    return {"op": "route", "proto": proto, "gate": "client", "_k": ("msg", mi)}
 
 
 def step_bind():
@@ -370,6 +375,7 @@ W_WRITES = ["INSERT INTO t (a) VALUES (1)", "UPDATE t SET a = 2 WHERE a = 1", "D
             "WITH x AS (INSERT INTO t VALUES (1) RETURNING *) SELECT * FROM x", "CREATE TABLE n1 (id int)", "TRUNCATE t", "SELECT a INTO t2 FROM t",
             "SELECT 1; INSERT INTO t (a) VALUES (3)", "SELECT * FROM t FOR UPDATE; SELECT 1", "UPDATE t SET a = 1; SELECT 1"]
 W_REJECTED = ["VACUUM t", "LOCK TABLE t"]       # sqlparser rejects them: the role is not recomputed
+W_EMPTY = ["/*%s*/", "; /*%s*/", " /*%s*/ ; ", "  /*%s*/  ", "-- %s\n/*%s*/"]   # no statement at all (a ping): the tag sits in a comment
 
 
 def w_tagged(sql, tag):
@@ -382,8 +388,19 @@ def gen_wire_session(rng, t, shape, allow_begin):
     items = []
     n = 0
 
+    def empty_txn():
+        nonlocal n
+        tag = "w%d_%d" % (t, n)
+        n += 1
+        q = rng.choice(W_EMPTY).replace("%s", tag)
+        if rng.random() < 0.5:
+            return ("txn", "simple", q, [[{"t": "Q", "sql": q}]], tag, None, None)
+        return ("txn", "batch", q, [[{"t": "P", "name": "", "sql": q}, {"t": "B", "portal": "", "name": ""}, {"t": "E", "portal": "", "max": 0}, {"t": "S"}]], tag, None, None)
+
     def txn():
         nonlocal n
+        if rng.random() < 0.07:
+            return empty_txn()
         tag = "w%d_%d" % (t, n)
         n += 1
         k = rng.random()
@@ -420,6 +437,8 @@ def gen_wire_session(rng, t, shape, allow_begin):
         if rng.random() < 0.7:
             v = rng.choice(["primary", "replica", "any", "primary", "replica", "auto", "default"])
             items.append(("cmd", "SET SERVER ROLE TO '%s'" % v, "(ICmd (SetServerRole %s))" % ROLE_CMDS[v], ("role", v)))
+            if rng.random() < 0.5:
+                items.append(empty_txn())       # a ping right after the explicit choice
         else:
             v = rng.choice(["on", "off", "default"])
             items.append(("cmd", "SET PRIMARY READS TO '%s'" % v, "(ICmd (SetPrimaryReads %s))" % PR_CMDS[v], ("pr", v)))
@@ -449,18 +468,7 @@ def check_wire(run, router, quick, proof_ok, samples, distinct, recorded):
         return 0
     wire = bins["wire"]
     rng = run.rng
-    # projections of the statement texts (the tag comments do not change the AST)
-    texts = sorted(set(W_READS + W_WRITES + W_REJECTED + ["BEGIN", "START TRANSACTION", "BEGIN ISOLATION LEVEL SERIALIZABLE"]))
     base = settings_json((True, True, False, None))
-    res = RL.run_router(router, [{"settings": base, "steps": [{"op": "route", "proto": "Q", "sql": w_tagged(t, "w0_0")}]} for t in texts])
-    ast_of = {}
-    for t, r in zip(texts, res):
-        o = r["out"][0]
-        ast_of[t] = o["ast"] if o.get("parse") == "ok" else None
-
-    def ast_for(sql):
-        plain = "; ".join(re.sub(r"\s*/\*w\d+_\d+\*/", "", p).strip() for p in sql.split(";"))
-        return ast_of[plain]
 
     nsess = 150 if quick else 1500
     shapes = list(WIRE_SHAPES)
@@ -468,15 +476,15 @@ def check_wire(run, router, quick, proof_ok, samples, distinct, recorded):
     for t in range(nsess):
         shape = shapes[t % len(shapes)] if t % 4 else rng.choice(shapes)
         shards = WIRE_SHAPES[shape]
-        c = (rng.random() < 0.8, rng.random() < 0.8, rng.random() < 0.5, rng.choice([None, "primary", "replica"]))
+        c = (rng.random() < 0.8, rng.random() < 0.8, rng.random() < 0.5, rng.choice([None, "primary", "replica"]), rng.random() < 0.5)
         if t % 5 == 0:
-            c = (True, True, c[2], c[3])
+            c = (True, True, c[2], c[3], t % 10 == 0)
         if not c[0]:
-            c = (False, False, c[2], c[3])      # config.rs rejects read/write splitting without the parser
+            c = (False, False, c[2], c[3], False)      # config.rs rejects read/write splitting and plugins without the parser
         dsh = rng.choice(["shard_0", "random", "random_healthy"])
         toml = W.make_toml(pools={"db": {"opts": {"query_parser_enabled": c[0], "query_parser_read_write_splitting": c[1], "primary_reads_enabled": c[2],
                                                   "default_role": c[3] or "any", "default_shard": dsh},
-                                         "users": [{"pool_size": 3}],
+                                         "users": [{"pool_size": 3}], "plugins": PLUGINS_TOML if c[4] else None,
                                          "shards": [{"servers": [[b, r] for b, r in sh]} for sh in shards]}})
         items = gen_wire_session(rng, t, shape, allow_begin=(shape != "1x(P)"))
         backends = [b for sh in shards for b, _ in sh]
@@ -484,6 +492,12 @@ def check_wire(run, router, quick, proof_ok, samples, distinct, recorded):
                       "role_of": {b: r for sh in shards for b, r in sh}, "shard_of": {b: i for i, sh in enumerate(shards) for b, _ in sh}})
         scns.append(wire_scenario(toml, backends, items))
     results = W.run_scenarios(wire, scns, timeout=90)
+
+    # projection of every routed text (the real parser on the real text, tags included)
+    routed = sorted({x for m in metas for it in m["items"] if it[0] == "txn" for x in ([it[2]] if isinstance(it[2], str) else list(it[2]))})
+    pres = RL.run_router(router, [{"settings": base, "steps": [{"op": "route", "proto": "Q", "sql": t}]} for t in routed])
+    ast_of = {t: (r["out"][0]["ast"] if r["out"][0].get("parse") == "ok" else None) for t, r in zip(routed, pres)}
+    ast_for = lambda sql: ast_of[sql]
 
     exprs = []
     for m in metas:
@@ -504,7 +518,7 @@ def check_wire(run, router, quick, proof_ok, samples, distinct, recorded):
     vals = vlib.coq_eval("c05w", PREAMBLE, exprs, shard=max(1, (len(exprs) + 15) // 16)) if proof_ok else None
 
     n = 0
-    hist = {"sessions": 0, "transactions": 0, "commands": 0, "set_valued": 0, "no_candidate_errors": 0, "known_F17": 0, "by_shape": {}, "executed_on": {"primary": 0, "replica": 0},
+    hist = {"sessions": 0, "plugin_pools": 0, "empty_messages": 0, "empty_under_explicit_role_on_plugin_pool": 0, "transactions": 0, "commands": 0, "set_valued": 0, "no_candidate_errors": 0, "known_F17": 0, "by_shape": {}, "executed_on": {"primary": 0, "replica": 0},
             "any_role_used": {"primary": 0, "replica": 0}, "transactions_after_explicit_role": 0}
     f17_w = None
     for si, (m, scn, res) in enumerate(zip(metas, scns, results)):
@@ -529,6 +543,7 @@ def check_wire(run, router, quick, proof_ok, samples, distinct, recorded):
                     landed.setdefault(tg, []).append((e["who"], e.get("conn")))
         mv = vlib.parse_coq(vals[si]) if vals is not None else None
         hist["sessions"] += 1
+        hist["plugin_pools"] += bool(m["cfg"][4])
         hist["by_shape"][m["shape"]] = hist["by_shape"].get(m["shape"], 0) + 1
         # monitor state (model-free): what the session asked for so far
         c = m["cfg"]
@@ -555,14 +570,17 @@ def check_wire(run, router, quick, proof_ok, samples, distinct, recorded):
             frs = [recvs[ri + j]["frames"] for j in range(len(frames))]
             ri += len(frames)
             hist["transactions"] += 1
+            if isinstance(first, str) and ast_for(first) == []:
+                hist["empty_messages"] += 1
+                hist["empty_under_explicit_role_on_plugin_pool"] += bool(c[4] and explicit != "none")
             n += 1
             run.cov["traces_validated_against_impl"] += 1
             where = landed.get(tag, [])
             errored = any(f.get("t") == "E" for f in frs[0])
             backs = sorted(set(where))
             distinct.add(("wire", m["shape"], c, m["default_shard"], explicit, parser, preads, kind, str(first)))
-            desc = "wire session %d (%s, parser=%s splitting=%s primary_reads=%s default_role=%s default_shard=%s), transaction %s %r" % (
-                si, m["shape"], c[0], c[1], c[2], c[3], m["default_shard"], tag, first if isinstance(first, str) else list(first))
+            desc = "wire session %d (%s, parser=%s splitting=%s primary_reads=%s default_role=%s plugins=%s default_shard=%s), transaction %s %r" % (
+                si, m["shape"], c[0], c[1], c[2], c[3], c[4], m["default_shard"], tag, first if isinstance(first, str) else list(first))
             if len(backs) > 1:
                 run.violation("counterexample", "%s: the statements of one transaction ran on different server connections %s" % (desc, backs), dict(rp, landed=backs))
                 return n
@@ -773,6 +791,16 @@ def check(run):
                     seq.append(step_route(rng.choice("QP"), pick(k)))
             seq.insert(rng.randrange(1, len(seq)), step_bind())
             sessions.append(seq)
+    # an empty / comment-only / whitespace message (simple and Parse) right after every SET SERVER ROLE value, then three
+    # more messages: on a pool with plugins the session is still parsed, the explicit role must survive
+    for v in ["primary", "replica", "any", "auto", "default"]:
+        for ei in kind_idx.get("empty", []):
+            for proto in "QP":
+                seq = [step_route(rng.choice("QP"), pick("plain")), step_cmd_role(v), step_route(proto, ei)]
+                if proto == "P":
+                    seq.append(step_bind())
+                seq += [step_route(rng.choice("QP"), pick(k)) for k in ("plain", "write", "plain")]
+                sessions.append(seq)
     # random sessions of 2-4 messages with overrides in between
     for _ in range(700 if quick else 12000):
         seq = []
